@@ -58,13 +58,13 @@ func replaceMatchers(selectors matcherHeap, expr *parser.Expr) {
 				continue
 			}
 
-			// All replacements are done on metrics name only, so we can drop the
-			// explicit metric name selector. Filters which are already present as
-			// matchers in the replacement selector are dropped as well; other
-			// matchers on the same label have to stay.
+			// Filters which are already present as matchers in the replacement
+			// selector (the metric name matcher among them) are dropped; other
+			// matchers on the same label, including further matchers on the
+			// metric name, have to stay.
 			filters := make([]*labels.Matcher, 0, len(e.LabelMatchers))
 			for _, f := range e.LabelMatchers {
-				if f.Name == labels.MetricName || containsMatcher(replacement, f) {
+				if containsMatcher(replacement, f) {
 					continue
 				}
 				filters = append(filters, f)
